@@ -206,9 +206,12 @@ func c16Case(w *core.Worker, i int) {
 				if g := res.Views[0].Rows[0][0].S; g != want {
 					viol("status:is-open", fmt.Sprintf("IS OPEN = %s, expected %s", g, want))
 				}
+				if g := res.Views[0].Rows[0][1].S; g != c16Not(want) {
+					viol("status:is-open", fmt.Sprintf("IS NOT OPEN = %s while IS OPEN is %s", g, want))
+				}
 				compared++
 			}
-			res = exec(fmt.Sprintf("SELECT CURSOR %s IS IN RANGE, CURSOR %s COUNT;", cn, cn))
+			res = exec(fmt.Sprintf("SELECT CURSOR %s IS IN RANGE, CURSOR %s COUNT, CURSOR %s IS NOT IN RANGE;", cn, cn, cn))
 			if !c.declared || !c.open {
 				expectErr(res, true, "closed or undeclared")
 			} else if expectErr(res, false, "") {
@@ -222,6 +225,9 @@ func c16Case(w *core.Worker, i int) {
 				row := res.Views[0].Rows[0]
 				if row[0].S != want {
 					viol("status:in-range", fmt.Sprintf("IS IN RANGE = %s, the position %d of %d gives %s", row[0].S, c.idx, len(c.rows), want))
+				}
+				if row[2].S != c16Not(want) {
+					viol("status:in-range", fmt.Sprintf("IS NOT IN RANGE = %s at position %d of %d, where IS IN RANGE is %s (fetched: %v)", row[2].S, c.idx, len(c.rows), want, c.fetched))
 				}
 				if row[1].S != strconv.Itoa(len(c.rows)) {
 					viol("status:count", fmt.Sprintf("COUNT = %s, the snapshot holds %d rows", row[1].S, len(c.rows)))
@@ -416,4 +422,15 @@ func c16Case(w *core.Worker, i int) {
 	w.Count("observations_compared", int64(compared))
 	w.Count("in_range_fetches_after_table_change", int64(inRangeAfterChange))
 	w.Case(core.Digest(append([]string{t.CSV()}, history...)...), inRangeAfterChange >= 3)
+}
+
+// c16Not negates a ternary value spelled as csvq prints it.
+func c16Not(t string) string {
+	switch t {
+	case "TRUE":
+		return "FALSE"
+	case "FALSE":
+		return "TRUE"
+	}
+	return t
 }
